@@ -60,11 +60,12 @@ def cmd_import(root):
         sd = os.path.join(root, P, "_seed")
         if not os.path.isdir(sd):
             continue
+        round2 = os.path.isdir(os.path.join(root, P, "_seed_round1"))
         for x in sorted(os.listdir(sd)):
             src = os.path.join(sd, x)
-            if not os.path.exists(os.path.join(src, "patch.diff")):
+            if not os.path.exists(os.path.join(src, "patch.diff")) or not os.path.exists(os.path.join(src, "meta.json")):
                 continue
-            dst = os.path.join(SEEDED, P + x)
+            dst = os.path.join(SEEDED, P + ({"a": "c", "b": "d"}.get(x, x) if round2 else x))
             if os.path.exists(dst):
                 continue
             os.makedirs(os.path.join(dst, "demo"))
